@@ -406,12 +406,9 @@ func genND(c *Ctx) {
 		"(every root shape of rank 1–3 with extents ≤ E, every in-bounds (loc,dims,step≤S), depth ≤ D; each new view is unrolled and probed), " +
 		"(b) random sequences of slice/get/set/apply/applySlice/copyFrom/unroll/reshape/contiguous/get1…/max/min/scale/addto valid w.r.t. the reference semantics, " +
 		"(c) malformed stream on the Go back-end; non-trivial = the program creates at least one derived view and performs a write or a bulk op; distinct by program text"
-	types := []string{"float64"}
-	if c.Tier == "thorough" {
-		types = ndTypes
-	}
-	if t := c.Arg("types", ""); t == "all" {
-		types = ndTypes
+	types := ndTypes // all 8 element-type instantiations, both back-ends, in every tier
+	if t := c.Arg("types", ""); t != "" && t != "all" {
+		types = strings.Split(t, ",")
 	}
 	nontrivial := func(p *progBuilder) bool {
 		derived, write := false, false
